@@ -283,6 +283,33 @@ def run(F, R):
             "escaped triple quote handled", "the grammar accepts `\\\"\"\"` inside block strings but block_string_value never turns it into `\"\"\"` "
             "(the backslash stays in the value)")
 
+    # ---------------------------------------------------------------- R13.6
+    R.rule("R13.6", "comment termination uses the line-terminator table: the COMMENT rule stops at `line_terminator` (all of CRLF, CR, LF), not at a subset")
+    com = g.get("COMMENT")
+    stops = set()
+    def cstop(e, parent):
+        if e[0] == "neg":
+            def inner(x, p):
+                if x[0] == "id":
+                    stops.add("id:" + x[1])
+                if x[0] == "str":
+                    stops.add("str:" + x[1])
+            walk(e[1], inner)
+    if com:
+        walk(com["expr"], cstop)
+    lt_alts = {"str:" + a[1] for a in choice_items(g["line_terminator"]["expr"]) if a[0] == "str"}
+    R.check(bool(com) and ("id:line_terminator" in stops or lt_alts <= stops), "R13.6", "COMMENT:stops-at-every-line-terminator", "parser/src/graphql.pest:COMMENT",
+            "comment ends at line_terminator", "COMMENT stops only at %s: a comment ended by another line terminator swallows the following tokens" % sorted(stops))
+
+    # ---------------------------------------------------------------- R13.7
+    R.rule("R13.7", "block-string whitespace is space and tab only: block_string_value uses no Unicode-whitespace predicate (str::trim*, char::is_whitespace, "
+                    "split_whitespace) and no str::lines (which does not split on a lone CR)")
+    bsf = [b for b in F.find(r"async_graphql_parser::parse::utils::block_string_value")]
+    R.floor("R13.7", "block_string_value bodies", len(bsf), 4)
+    badc = [c for b in bsf for c in b.calls() if c.callee and re.search(r"str::\{impl#\d+\}::(trim|trim_start|trim_end|trim_matches|split_whitespace|lines|split_ascii_whitespace)$|char::methods::\{impl#\d+\}::(is_whitespace|is_ascii_whitespace)$", c.callee)]
+    R.check(not badc, "R13.7", "block_string_value:no-unicode-whitespace-predicates", bsf[0].where() if bsf else "-", "only byte/char comparisons with ' ' and '\\t'",
+            "block_string_value uses %s: lines made of other Unicode whitespace are treated as blank / indentation" % sorted({c.callee.split("::")[-1] for c in badc}))
+
     # ---------------------------------------------------------------- R13.5
     R.rule("R13.5", "uniqueness: parse_query inserts an operation / fragment only on the Vacant arm of a name lookup and returns the "
                     "duplicate error on the Occupied arm")
